@@ -1,66 +1,1 @@
-//! scratch probes (not part of any property)
-use crate::util::*;
-use rpki::rtr::pdu::{self, *};
-use std::io;
-
-/// @tier quick
-/// @says header const fold
-#[kani::proof]
-#[kani::unwind(4)]
-fn p1_hdr_fold() {
-    let v: u8 = kani::any();
-    let header = Header::new(v, 9, 0, 36);
-    let n = header.pdu_len().unwrap();
-    kani::cover!(true);
-    assert!(n == 36);
-}
-
-/// @tier quick
-/// @says vec zeroed of concrete size then read_exact
-#[kani::proof]
-#[kani::unwind(4)]
-fn p2_vec_concrete_read_exact() {
-    use tokio::io::AsyncReadExt;
-    let data: [u8; 4] = kani::any();
-    let mut v = vec![0u8; 4];
-    let mut rd: &[u8] = &data;
-    let res = block_on(rd.read_exact(v.as_mut()), 1).unwrap();
-    kani::cover!(res.is_ok());
-    assert!(res.is_ok());
-    assert!(v[0] == data[0] && v[3] == data[3]);
-    let b: bytes::Bytes = v.into();
-    assert!(b[1] == data[1]);
-    std::mem::forget(res);
-    std::mem::forget(b);
-}
-
-/// @tier quick
-/// @says rk read_payload with constructed header, N=4
-#[kani::proof]
-#[kani::unwind(4)]
-fn p3_rk_read_payload() {
-    let v: u8 = kani::any();
-    let fl: u8 = kani::any();
-    let body: [u8; 28] = kani::any(); // 20 ski + 4 asn + 4 key info
-    let header = Header::new(v, 9, (fl as u16) << 8, 36);
-    let mut rd: &[u8] = &body;
-    let res = block_on(RouterKey::read_payload(header, &mut rd), 1).unwrap();
-    kani::cover!(res.is_ok());
-    assert!(res.is_ok());
-    std::mem::forget(res);
-}
-
-/// @tier quick
-/// @says vec of header len
-#[kani::proof]
-#[kani::unwind(4)]
-fn p4_vec_of_hdr_len() {
-    let header = Header::new(0, 9, 0, 36);
-    let n = header.pdu_len().unwrap();
-    let v = vec![0u8; n];
-    kani::cover!(true);
-    let i: usize = kani::any();
-    kani::assume(i < 36);
-    assert!(v[i] == 0);
-    std::mem::forget(v);
-}
+//! scratch probes (not part of any property; never run by a registered check)
